@@ -170,6 +170,15 @@ func factsC14() {
 			iEndClosing >= 0 && iEndClosing < iDL && iDL < iApp && iEndClosing < iBW && iApp < iRet && iBW < iRet && okDepth &&
 				count(evs, "assign", `^d\.pLens\b.*=`) == 1 && count(evs, "call", `^d\.buf\.Write\(`) == 1,
 			"Write: after the closing branch exactly one `d.pLens = append(d.pLens, len(f.Payload))` and one `d.buf.Write(f.Payload)`, unconditionally, then return (false, nil)")
+		// no way out of Write between the end of the closing branch and the append: a datagram that reaches this point is stored
+		nExitsBetween := 0
+		for i := iEndClosing + 1; iEndClosing >= 0 && i < iApp; i++ {
+			if evs[i].kind == "return" || evs[i].kind == "branch" || (evs[i].kind == "call" && contains(evs[i].text, "panic(")) {
+				nExitsBetween++
+			}
+		}
+		boolFact(g, "dgWriteStoresWhatItDoesNotRefuse", iEndClosing >= 0 && iApp > iEndClosing && nExitsBetween == 0 && count(evs, "return", ``) == 3,
+			"Write: three returns in all (closed pipe; closing frame; stored) and none between the closing branch and the append: a data frame for an open pipe is always stored (seed C14-8: an early `return false, errFull` there dropped datagrams)")
 		boolFact(g, "dgWriteLocked", idx(evs, 0, "call", `^d\.rwCond\.L\.Lock\(\)$`) == 0 && idx(evs, 0, "defer", `^d\.rwCond\.L\.Unlock\(\)$`) == 1,
 			"Write: rwCond.L.Lock(); defer rwCond.L.Unlock() open the body (length and bytes are appended in one critical section)")
 	}
